@@ -137,6 +137,20 @@ def run(rep: Report, tier: str) -> None:
 			rv.violate(f'entry.{a}', view.where, f'EntryOfLark reads `{a}` of the wrapped lark object, which the cache encoding does not carry')
 	for a in sorted(reads_meta):
 		rv.check(a in restored_meta, f'Meta.{a}', view.where, f'EntryOfLark reads meta.{a} but __loads does not restore it (restored: {sorted(restored_meta)})')
+	# provenance: every restored position-related field is a function of the stored `source_map` (or a constant) only
+	rp = rep.rule('C15/position-provenance', 'each position-related field restored by __loads (line, column, end_line, end_column, meta.empty) is computed from the stored source_map or is a constant — never from other parts of the entry', floor=9)
+	for n in ast.walk(loads.node):
+		if isinstance(n, ast.Assign) and isinstance(n.targets[0], ast.Attribute) and isinstance(n.targets[0].value, ast.Name) and n.targets[0].value.id in ('meta', 'token') and n.targets[0].attr in ('line', 'column', 'end_line', 'end_column', 'empty', 'start_pos', 'end_pos'):
+			v = n.value
+			names = {x.id for x in ast.walk(v) if isinstance(x, ast.Name)}
+			keys = {const_str(x.slice) for x in ast.walk(v) if isinstance(x, ast.Subscript) and const_str(x.slice) is not None}
+			is_const = isinstance(v, ast.Constant)
+			ok = is_const or (names <= {'entry_tree', 'entry_token', 'entry'} and keys <= {'source_map'} and bool(keys))
+			if n.targets[0].attr == 'empty' and is_const:
+				# the view returns the stored span only when `not meta.empty`; the writer stores (0,0,0,0) for trees without a span, so the restored flag must be False
+				ok = v.value is False
+			rp.check(ok, f'{n.targets[0].value.id}.{n.targets[0].attr}', (ENTRY, n.lineno), f'`{unparse(n)}` makes a restored position field depend on {sorted(names - {"entry_tree", "entry_token", "entry"}) or sorted(keys - {"source_map"}) or "a constant that hides the stored span"}: EntryOfLark.source_map of the restored tree then differs from the span stored by __dumps (e.g. a childless tree such as `pass` or `[]` loses its span)', unparse(n))
+
 	# who else reads the raw lark objects? (Entry.source consumers)
 	src_users = []
 	for rel in idx.all_py(('rogw',)):
